@@ -157,6 +157,18 @@ def run(rep, tier="quick", replay=None, evidence_dir=None, collect_only=False):
             pis = calls_named(pl, P + "parse_input_schemas")
             rep.ob("C20.R1", "Parser::parse_list parses all inputs before collecting", len(pis) == 1 and pl.dominates(pis[0][0], src[0][0]), "", pl.loc())
 
+    # names are qualified the same way whichever input is parsed first (C11.R4 instances): a reference must not bind to
+    # whatever happens to be registered already under the bare name
+    if not collect_only:
+        import c11
+        sub11 = common.Report("C11", tier, 0)
+        c11.run(sub11, tier=tier, collect_only=True)
+        n54 = 0
+        for o in sub11.obligations:
+            if o["rule"] == "C11.R4":
+                n54 += 1
+                rep.ob("C20.R5", "[C11.R4] " + o["instance"], o["ok"], o["detail"], o["loc"])
+        rep.floor("C20.R5", "imported namespace-threading obligations", n54, 40)
     # ------------------------------------------------------------ R6 an input parsed on demand is answered with a reference
     rep.rule("C20.R6", "a reference to an input that is parsed on demand gets the same answer as a reference to an already parsed one: Schema::Ref for every named shape")
     gsr = [b for k, b in prog.bodies.items() if k.startswith(P + "fetch_schema_ref::") and b.kind != "Closure" and b.argc == 1]
